@@ -108,3 +108,7 @@
                         (sigOf bh (select se (+ so (maskCount m mo (- n 1)))))))
             (bdnSigAgg a sv ce co m mo se so bh (- n 1)))))
      :pattern ((bdnSigAgg a sv ce co m mo se so bh n)))))
+; ---- BN curve membership (abstract predicates over the limb representation of the coordinates) ----
+(declare-fun bnOnCurveG1 ((Array Int Int) (Array Int Int) (Array Int Int)) Bool)
+(declare-fun bnOnTwistG2 ((Array Int Int) (Array Int Int) (Array Int Int) (Array Int Int) (Array Int Int) (Array Int Int)) Bool)
+(declare-fun gfp2zero ((Array Int Int) (Array Int Int)) Bool)
